@@ -179,6 +179,12 @@ func c16J2T(w *W, sch *TSchema, desc *thrift.TypeDescriptor, val *TVal, wo write
 	t := w.T
 	opts := conv.Options{WriteRequireField: wo.WriteRequire, WriteDefaultField: wo.WriteDefault, WriteOptionalField: wo.WriteOptional, DisallowUnknownField: wo.DisallowUnknown}
 	cv := j2t.NewBinaryConv(opts)
+	if t.Chance(1, 4, "reopt.use") {
+		// the converter starts life with other options and gets these by SetOptions
+		cv = j2t.NewBinaryConv(otherOpts(t, opts))
+		cv.SetOptions(opts)
+		w.Count("converter_reconfigured_by_SetOptions")
+	}
 	ctx := context.Background()
 	style := &jsonStyle{t: t, WS: t.Intn(3, "js.ws"), Esc: t.Intn(2, "js.esc"), Num: 0}
 	js := style.render(val)
@@ -329,6 +335,12 @@ func c16T2J(w *W, sch *TSchema, desc *thrift.TypeDescriptor, val *TVal, wo write
 	src := encodeThrift(nil, val)
 	opts := conv.Options{WriteRequireField: wo.WriteRequire, WriteDefaultField: wo.WriteDefault, WriteOptionalField: wo.WriteOptional, DisallowUnknownField: wo.DisallowUnknown}
 	cv := t2j.NewBinaryConv(opts)
+	if t.Chance(1, 4, "reopt.use") {
+		// the converter starts life with other options and gets these by SetOptions
+		cv = t2j.NewBinaryConv(otherOpts(t, opts))
+		cv.SetOptions(opts)
+		w.Count("converter_reconfigured_by_SetOptions")
+	}
 	ctx := context.Background()
 	missing := anyMissingRequired(val) && !wo.WriteRequire
 	w.Logf("msg %d (%d bytes, unknown=%d, missingRequired=%v): %x", d, len(src), nunk, missing, clipb(src, 300))
